@@ -17,11 +17,16 @@ from vlib.harness import Check, VERIF
 from vlib.monitors import AuditLog, Failpoints, InjectedFault, audit_jsonable
 
 EXC = {'OSError': OSError, 'KeyError': KeyError, 'ValueError': ValueError, 'RuntimeError': RuntimeError,
-       'InjectedFault': InjectedFault}
-EXC_NAMES = ['OSError', 'KeyError', 'ValueError', 'RuntimeError']
+       'InjectedFault': InjectedFault, 'KeyboardInterrupt': KeyboardInterrupt, 'SystemExit': SystemExit}
+# a stage that is interrupted (Ctrl-C) or calls sys.exit() also makes the entry point fail: not Exception subclasses
+EXC_NAMES = ['OSError', 'KeyError', 'ValueError', 'RuntimeError', 'KeyboardInterrupt', 'SystemExit']
+NEXC = len(EXC_NAMES)
 INIT4 = [(a, b) for a in (True, False) for b in (True, False)]       # RUN2D set?, RUN1D set?
-INIT9 = [(a, b) for a in (True, False, 'empty') for b in (True, False, 'empty')]   # ... or set to the empty string
-WS_NATURAL = ['calib_unset', 'resolve_unset', 'flist_missing', 'flist_truncated', 'rescore_exists', 'score_raises',
+# ... or set to the empty string, or to the very value the parameter file is going to set
+INIT9 = [(a, b) for a in (True, False, 'empty', 'same') for b in (True, False, 'empty', 'same')]
+NINIT = len(INIT9)
+FILE_RUN = 'v5_7_0'
+WS_NATURAL = ['calib_unset', 'resolve_unset', 'flist_missing', 'flist_truncated', 'rescore_exists', 'score_raises', 'score_exits',
               'calib_empty', 'calib_empty+resolve_unset', 'calib_empty+flist_missing', 'calib_empty+score_raises']
 TI_NATURAL = ['par_missing', 'kw_missing_object', 'kw_missing_run1d', 'kw_missing_minuse', 'kw_nonnumeric_niter',
               'kw_nonnumeric_wavemin', 'hmf_kw_missing_epsilon', 'hmf_kw_bad_nonnegative', 'spplate_missing', 'fibre_absent',
@@ -69,6 +74,8 @@ class C20(Check):
         self._saved_score = W.sdss_score
 
         def stub_sdss_score(flist, **kw):
+            if getattr(stub_sdss_score, 'fail', False) == 'exit':
+                raise SystemExit('stub sdss_score: a stage called sys.exit()')
             if getattr(stub_sdss_score, 'fail', False):
                 raise IOError('stub sdss_score: calibration files not found')
             return np.ones((flist[1].header.get('NAXIS2'),), dtype='f4')
@@ -125,7 +132,7 @@ class C20(Check):
             'ws_line': (NL_WS // 2) * 2 if q else NL_WS * 2,
             'ws_call': NC_WS * 2,
             'ws_natural': len(WS_NATURAL) * 2,
-            'ti_clean': 18,
+            'ti_clean': 2 * NINIT,
             'ti_line': (NL_TI // 10) * 2 if q else NL_TI * 8,
             'ti_call': (NC_TI // 4) * 2 if q else NC_TI * 8,
             'ti_natural': len(TI_NATURAL) * (2 if q else 4),
@@ -138,10 +145,10 @@ class C20(Check):
                 return {'entry': 'ws', 'rescore': bool(i % 2), 'calib': '/calib/dir/%d' % i, 'fault': {'mode': 'none'}}
             if cls == 'ws_line':
                 k = (i // 2) * (2 if q else 1)
-                return {'entry': 'ws', 'rescore': bool(i % 2), 'calib': '/calib/dir', 'fault': {'mode': 'line', 'index': k, 'exc': EXC_NAMES[k % 4]}}
+                return {'entry': 'ws', 'rescore': bool(i % 2), 'calib': '/calib/dir', 'fault': {'mode': 'line', 'index': k, 'exc': EXC_NAMES[k % NEXC]}}
             if cls == 'ws_call':
                 k = i // 2
-                return {'entry': 'ws', 'rescore': bool(i % 2), 'calib': '/calib/dir', 'fault': {'mode': 'call', 'index': k, 'exc': EXC_NAMES[(k + 1) % 4]}}
+                return {'entry': 'ws', 'rescore': bool(i % 2), 'calib': '/calib/dir', 'fault': {'mode': 'call', 'index': k, 'exc': EXC_NAMES[(k + 1) % NEXC]}}
             return {'entry': 'ws', 'rescore': bool(i % 2), 'calib': '/calib/dir',
                     'fault': {'mode': 'natural', 'natural': WS_NATURAL[(i // 2) % len(WS_NATURAL)]}}
         ncfg = 2 if q else 8
@@ -151,17 +158,17 @@ class C20(Check):
             return {'method': ['pca', 'hmf'][j % 2], 'init': list(INIT4[(j // 2) % 4] if not q else INIT4[(j * 3) % 4])}
         if cls == 'ti_clean':
             c = cfg(i)
-            c['init'] = list(INIT9[(i // 2) % 9])
+            c['init'] = list(INIT9[(i // 2) % NINIT])
             return {'entry': 'ti', 'cfg': c, 'fault': {'mode': 'none'}}
         if cls == 'ti_line':
             k = (i // ncfg) * (10 if q else 1) + ((i % ncfg) * 5 if q else 0)
-            return {'entry': 'ti', 'cfg': cfg(i % ncfg), 'fault': {'mode': 'line', 'index': k, 'exc': EXC_NAMES[k % 4]}}
+            return {'entry': 'ti', 'cfg': cfg(i % ncfg), 'fault': {'mode': 'line', 'index': k, 'exc': EXC_NAMES[k % NEXC]}}
         if cls == 'ti_call':
             k = (i // ncfg) * (4 if q else 1) + ((i % ncfg) * 2 if q else 0)
-            return {'entry': 'ti', 'cfg': cfg(i % ncfg), 'fault': {'mode': 'call', 'index': k, 'exc': EXC_NAMES[(k + 2) % 4]}}
+            return {'entry': 'ti', 'cfg': cfg(i % ncfg), 'fault': {'mode': 'call', 'index': k, 'exc': EXC_NAMES[(k + 2) % NEXC]}}
         nn = len(TI_NATURAL)
         c = cfg(i // nn)
-        c['init'] = list(INIT9[(i // nn + i) % 9])
+        c['init'] = list(INIT9[(i // nn + i) % NINIT])
         return {'entry': 'ti', 'cfg': c, 'fault': {'mode': 'natural', 'natural': TI_NATURAL[i % nn]}}
 
     # ------------------------------------------------------------------ fixtures
@@ -229,7 +236,11 @@ class C20(Check):
                     warnings.simplefilter('ignore')
                     with np.errstate(all='ignore'):
                         func()
-            except Exception as e:       # BaseException is out of scope by design
+            except Exception as e:
+                exc = e
+            except (KeyboardInterrupt, SystemExit) as e:
+                if 'injected at' not in str(e) and 'stub' not in str(e):
+                    raise                # a real interrupt of the harness, not an injected one
                 exc = e
         finally:
             fp.disarm()
@@ -342,6 +353,8 @@ class C20(Check):
                 shutil.copy(os.path.join(d, 'window_flist.fits'), os.path.join(d, 'window_flist_rescore.fits'))
             elif nat == 'score_raises':
                 self._stub.fail = True
+            elif nat == 'score_exits':
+                self._stub.fail = 'exit'
             if fault['mode'] in ('line', 'call') and fault['index'] >= rec['n' + fault['mode']]:
                 out.count('index_beyond_recorded_path')
                 return
@@ -361,8 +374,8 @@ class C20(Check):
         wd = os.path.join(self.workdir, 'ti%d' % self._n)
         os.makedirs(wd)
         env = {'BOSS_SPECTRO_REDUX': tree['topdir'], 'SPECTRO_MATCH': tree['match'], 'PHOTO_RESOLVE': tree['resolve'],
-               'RUN2D': {True: 'orig2d', False: None, 'empty': ''}[cfg['init'][0]],
-               'RUN1D': {True: 'orig1d', False: None, 'empty': ''}[cfg['init'][1]]}
+               'RUN2D': {True: 'orig2d', False: None, 'empty': '', 'same': FILE_RUN}[cfg['init'][0]],
+               'RUN1D': {True: 'orig1d', False: None, 'empty': '', 'same': FILE_RUN}[cfg['init'][1]]}
 
         def factory(variant=None, subdir='clean'):
             w = os.path.join(wd, subdir)
